@@ -655,6 +655,7 @@ def run(ctx):
         ctx.sample(cases[0])
     detached_selectors(ctx, 1500 if quick else 20000)
     negation_family(ctx, 150 if quick else 4000)
+    undeclared_and_moved_family(ctx, 80 if quick else 2000)
     if ctx.model.available:
         outs = ctx.model.run(flats)
         agree = 0
@@ -827,6 +828,73 @@ def negation_family(ctx, n):
                     sel.selectorText, [i.value for i in again.seq], [i.value for i in sel.seq]), KNOWN_PRED)
         except xml.dom.DOMException as e:
             ctx.violation('detached-undeclared-prefix', dict(case, selector=sels[0]), 'rejected: %s' % e, KNOWN_PRED)
+
+
+def undeclared_and_moved_family(ctx, n):
+    """(1) an undeclared prefix anywhere in a selector (compound, complex, list, attribute, :not()) rejects the
+    selector, in the parser's non-raising mode too: nothing of the rule may remain; (2) a Selector object moved into
+    the list of a rule of another sheet resolves and serialises against ITS sheet.  Search only."""
+    import cssutils
+    import xml.dom
+    from harness import impl
+    rng = ctx.rng
+    SHAPES = ['x|a.c', 'p|ok, x|a.c', 'b > x|a', 'b[x|att]', 'b:not(x|a)', 'b:not([x|a])', 'x|a', '.c x|*', 'x|a, k2', '*|y x|z#i']
+    for _ in range(n):
+        impl.reset()
+        shape = rng.choice(SHAPES)
+        wrap = rng.choice(['%s{l:0}', '@media tv{%s{l:0}}', '@media tv{@media print{%s{l:0}}}'])
+        text = '@namespace p "u"; ' + (wrap % shape) + ' k{m:n}'
+        case = {'text': text, 'cls': None, 'family': 'undeclared'}
+        ctx.case(('undeclared', text))
+        try:
+            sheet = cssutils.parseString(text)
+            rules = [r for _, r in style_rules(sheet)]
+            deep = all_pairs_deep(sheet)
+            if [r.selectorText for r in rules] != ['k']:
+                ctx.violation('undeclared-accepted', case, 'style rules after the parse: %r (only k may remain)' % [r.selectorText for r in rules], KNOWN_PRED)
+            for mode in (True, False):
+                cssutils.log.raiseExceptions = mode
+                r = cssutils.css.CSSStyleRule(selectorText='k')
+                sheet.add(r)
+                try:
+                    r.selectorText = shape
+                    accepted = True
+                except xml.dom.DOMException:
+                    accepted = False
+                if r.selectorText != 'k':
+                    ctx.violation('undeclared-accepted', dict(case, raising=mode), 'rule.selectorText = %r (%s) left %r' % (
+                        shape, 'no exception' if accepted else 'exception', r.selectorText), KNOWN_PRED)
+                cssutils.log.raiseExceptions = True
+        except Exception as e:  # noqa
+            cssutils.log.raiseExceptions = True
+            ctx.violation('negation-raises', case, '%s: %s' % (type(e).__name__, e), KNOWN_PRED)
+        # (2)
+        impl.reset()
+        s1 = cssutils.parseString('@namespace p "A"; @namespace o "C"; p|a o|b{l:0} p|x{l:1}')
+        s2 = cssutils.parseString('@namespace z "A"; @namespace p "B"; @namespace o "C"; z|c{l:0} p|d{l:2}')
+        case = {'family': 'moved-selector', 'cls': None, 'sheet1': s1.cssText.decode(), 'sheet2': s2.cssText.decode()}
+        ctx.case(('moved', rng.random()))
+        try:
+            sel = s1.cssRules[2 + rng.randrange(2)].selectorList[0]
+            want = [i.value for i in sel.seq if isinstance(i.value, tuple)]
+            target = s2.cssRules[3 + rng.randrange(2)].selectorList
+            how = rng.choice(['append', 'appendSelector', 'setitem'])
+            if how == 'append':
+                target.append(sel)
+            elif how == 'appendSelector':
+                target.appendSelector(sel)
+            else:
+                target[0] = sel
+            case['how'] = how
+            got = [i.value for i in sel.seq if isinstance(i.value, tuple)]
+            again = cssutils.parseString(s2.cssText)
+            if got != want or all_pairs_deep(again) != all_pairs_deep(s2):
+                ctx.violation('reparse-pairs', case, 'moved selector stored %r (was %r); sheet 2 serialises %r which reads back as %r, DOM %r' % (
+                    got, want, s2.cssText.decode()[:300], all_pairs_deep(again), all_pairs_deep(s2)), KNOWN_PRED)
+        except xml.dom.DOMException:
+            pass
+        except Exception as e:  # noqa
+            ctx.violation('negation-raises', case, '%s: %s' % (type(e).__name__, e), KNOWN_PRED)
 
 
 def replay(path):
